@@ -2,6 +2,7 @@
    coq/C12/DynProofs.v about the DynCore model (coq/C12/Dyn.v); the specification vocabulary
    (event classes, step shapes) is in coq/C12/Spec.v. *)
 From Coq Require Import List Arith Bool QArith.
+From Scenic Require C11.LTL.
 From Scenic Require Import C12.Dyn C12.Spec C12.DynProofs.
 Import ListNotations.
 Local Open Scope nat_scope.
@@ -58,15 +59,39 @@ Print Assumptions C12_terminate_after_exact.
 
 (* a scenario (at any nesting depth) whose time limit is reached stops before running its compose block;
    otherwise its elapsed time grows by exactly one per step *)
-Theorem C12_scenario_limit : forall f P w t sid el k mons subs sc,
-  nth_error (p_scenarios P) sid = Some sc -> limit_reached sc el = true ->
-  step_scen (S f) P w t (SState sid el k mons subs) = (SStopped, []).
-Proof. exact scen_limit_stops. Qed.
-Theorem C12_scenario_elapsed : forall fuel P w t sid el k mons subs st' e,
-  step_scen fuel P w t (SState sid el k mons subs) = (SCont st', e) ->
-  (exists k' subs', st' = SState sid (S el) k' mons subs') /\
+Theorem C12_scenario_elapsed : forall fuel P w t sid el k mons reqs subs st' e,
+  step_scen fuel P w t (SState sid el k mons reqs subs) = (SCont st', e) ->
+  (exists k' reqs' subs' er, st' = SState sid (S el) k' mons reqs' subs' /\ update_reqs P w t sid reqs = (reqs', false, er)) /\
   (forall sc, nth_error (p_scenarios P) sid = Some sc -> limit_reached sc el = false).
 Proof. exact scen_elapsed. Qed.
+
+(* The sub-order inside the scenario phase (documented steps 1a, 1b, then 1d/1e): the temporal-requirement
+   monitors of the scenario are updated FIRST, with the valuation of the current step -- a verdict FALSE
+   rejects at once, having evaluated nothing else; THEN the time limit is looked at: a scenario that has
+   reached its limit stops having logged exactly the monitor updates (its compose block and `terminate when`
+   conditions do not run), and is accepted iff no monitor (its own or of a running sub-scenario) has a
+   falsy verdict over the histories that INCLUDE this last step. *)
+Theorem C12_requirements_before_time_limit : forall f P w t sid el k mons reqs subs sc reqs' er,
+  nth_error (p_scenarios P) sid = Some sc ->
+  (update_reqs P w t sid reqs = (reqs', true, er) ->
+   step_scen (S f) P w t (SState sid el k mons reqs subs) = (SBad OReject, er)) /\
+  (limit_reached sc el = true -> update_reqs P w t sid reqs = (reqs', false, er) ->
+   step_scen (S f) P w t (SState sid el k mons reqs subs) =
+   (if stop_ok P (SState sid el k mons reqs' subs) then (SStopped, er) else (SBad OReject, er))).
+Proof.
+  intros; split; [exact (scen_req_false_rejects f P w t sid el k mons reqs subs sc reqs' er H)
+                 | exact (scen_limit_stops f P w t sid el k mons reqs subs sc reqs' er H)].
+Qed.
+(* ... where updating appends the current valuation to every monitor's history (no monitor is skipped) *)
+Theorem C12_requirement_update_appends_current_step : forall P w t sid rs rs' er,
+  update_reqs P w t sid rs = (rs', false, er) ->
+  Forall2 (fun r r' => fst r' = fst r /\
+                       snd r' = match nth_error (p_reqs P) (fst r) with
+                                | Some (_, cs) => snd r ++ [map (eval w t) cs]
+                                | None => snd r end) rs rs'.
+Proof. exact update_reqs_shape. Qed.
+Print Assumptions C12_requirements_before_time_limit.
+Print Assumptions C12_requirement_update_appends_current_step.
 Print Assumptions C12_scenario_elapsed.
 
 (* do/wait ... for/until: started at the time the statement is reached ... *)
@@ -108,11 +133,13 @@ Print Assumptions C12_do_for_until_ends_exact.
 Print Assumptions C12_do_for_until_resumes_body.
 
 (* terminate when: stops in the step in which a condition is true, and only then *)
-Theorem C12_terminate_when_exact : forall w t sc sid el mons k' subs' e,
-  (existsb (eval w t) (s_termwhen sc) = true -> fst (scen_fin w t sc sid el mons k' subs' e) = SStopped) /\
+Theorem C12_terminate_when_exact : forall P w t sc sid el mons reqs k' subs' e,
+  (existsb (eval w t) (s_termwhen sc) = true ->
+   fst (scen_fin P w t sc sid el mons reqs k' subs' e) =
+   (if stop_ok P (SState sid el k' mons reqs subs') then SStopped else SBad OReject)) /\
   (existsb (eval w t) (s_termwhen sc) = false -> (match k' with None => has_compose sc | Some _ => false end) = false ->
-   fst (scen_fin w t sc sid el mons k' subs' e) = SCont (SState sid (S el) k' mons subs')).
-Proof. intros; split; [exact (terminate_when_stops w t sc sid el mons k' subs' e) | exact (terminate_when_continues w t sc sid el mons k' subs' e)]. Qed.
+   fst (scen_fin P w t sc sid el mons reqs k' subs' e) = SCont (SState sid (S el) k' mons reqs subs')).
+Proof. intros; split; [exact (terminate_when_stops P w t sc sid el mons reqs k' subs' e) | exact (terminate_when_continues P w t sc sid el mons reqs k' subs' e)]. Qed.
 Print Assumptions C12_terminate_when_exact.
 
 (* non-vacuity: a behaviour `take 1; do B1 for 2 steps; take 2` with B1 = `while True: take 5`, a monitor,
@@ -122,11 +149,30 @@ Definition ex_prog : program :=
                       {| b_pre := []; b_inv := []; b_body := [SWhile (CConst true) [STake 5]] |} ];
      p_monitors := [ [SWhile (CConst true) [SMark 7; SWait]] ];
      p_scenarios := [ {| s_pre := []; s_inv := []; s_limit := Some (inject_Z 5); s_termwhen := [];
-                         s_monitors := [0]; s_compose := None |} ];
-     p_objects := [Some 0]; p_rec_init := []; p_records := [3]; p_rec_final := []; p_termsim := [] |}.
+                         s_monitors := [0]; s_reqs := []; s_compose := None |} ];
+     p_objects := [Some 0]; p_rec_init := []; p_records := [3]; p_rec_final := []; p_termsim := []; p_reqs := [] |}.
 Example C12_example :
   let '(res, evs) := simulate true 50 100 ex_prog {| w_tab := [] |} (Some 9) (fun _ => [0]) in
   r_kind res = RDone TScenarioComplete /\ r_time res = 5 /\ r_traj res = 6 /\
   r_actions res = [[(0, [1])]; [(0, [5])]; [(0, [5])]; [(0, [2])]; [(0, [])]] /\
   firstn 8 evs = [EUpdate 0; ERecord 3; EMonitor 0 7; EActions [(0, [1])]; ESimStep 0; EClock 1; EUpdate 0; ERecord 3].
+Proof. vm_compute. repeat split; reflexivity. Qed.
+
+(* non-vacuity of the requirement theorems (and the shape of the bug class they exclude): top-level scenario
+   with `terminate after 2 steps`; `require eventually c0` with c0 true ONLY in step 2 (the step in which the
+   limit fires) is accepted, `require always c0` with c0 false ONLY in step 2 is rejected, and the last events of
+   the accepted run are the monitor update of step 2 followed by the record of that step: nothing else ran *)
+Definition ex_req_prog (f : LTL.formula) : program :=
+  {| p_behaviors := []; p_monitors := [];
+     p_scenarios := [ {| s_pre := []; s_inv := []; s_limit := Some (inject_Z 2); s_termwhen := [];
+                         s_monitors := []; s_reqs := [0]; s_compose := None |} ];
+     p_objects := [None]; p_rec_init := []; p_records := [3]; p_rec_final := []; p_termsim := [];
+     p_reqs := [(f, [CTab 0])] |}.
+Example C12_requirement_sees_limit_step :
+  (let '(res, evs) := simulate true 50 100 (ex_req_prog (LTL.Eventually (LTL.Atom 0))) {| w_tab := [[false; false; true]] |} None (fun _ => []) in
+   r_kind res = RDone TScenarioComplete /\ r_time res = 2 /\ skipn (length evs - 2) evs = [EReq 0 0 0; ERecord 3]) /\
+  (let '(res, evs) := simulate true 50 100 (ex_req_prog (LTL.Always (LTL.Atom 0))) {| w_tab := [[true; true; false]] |} None (fun _ => []) in
+   r_kind res = RRejected /\ r_time res = 2) /\
+  (let '(res, evs) := simulate true 50 100 (ex_req_prog (LTL.Always (LTL.Atom 0))) {| w_tab := [[false; true; true]] |} None (fun _ => []) in
+   r_kind res = RSceneRejected).
 Proof. vm_compute. repeat split; reflexivity. Qed.
